@@ -1,14 +1,200 @@
-import Proofs.Merkle.Climb
+import Proofs.Merkle.SoundTop
+import Proofs.Merkle.Malleable
+import Proofs.Merkle.Replay
+import Proofs.Merkle.ListAux
 /-!
 # C30 — Merkle-sum-index proofs cannot be forged or replayed
 
-Model: `PocketModel/Merkle/SumIndex.lean` (`x/pocketcore/types/merkle.go`).
+Model: `PocketModel/Merkle/SumIndex.lean` (`x/pocketcore/types/merkle.go`, level check of
+`x/pocketcore/keeper/proof.go`).  `H` is the hash function (blake2b-256 in the code; the only fact
+used about it is that its output has 32 bytes), `post` the parent-hash layout.  Collision
+resistance is never assumed: `Collision H` (two different inputs with equal hash) is an explicit
+alternative in every soundness statement.
+
+`WireOK p` = the type invariants of a decoded proof (`uint64` bounds, `int64` index) plus 32-byte
+sibling hashes.  The latter is **not** checked by the code; `sibling_hash_extension_accepted` shows
+what happens without it.  `Agree i p hp` = `p` and the committed proof `hp` of position `i` have the
+same hashes throughout, are identical when `i` is even, and when `i` is odd are identical except
+for the boundary `p.target.lower = first sibling's upper` (`odd_leaf_midpoint_accepted`).
 -/
 namespace C30
 open SumIndex
 
-/-- Any range the verification loop visits with `lower ≥ upper` — the target at the level reached, or
-the sibling stored for that level — ends verification with `(false, replay = true)`. -/
+/-- **Soundness.**  If `Validate` accepts `(p, leaf)` against the root generated from `leaves`
+(`2 ≤ n ≤ 2^32`, level count `levels n` as enforced by `ValidateProof`), then either a collision of
+`H` is exhibited, or: the position `i` the loop walked is committed, after the upgrade it is the
+proof's index itself, the leaf is the `i`-th committed leaf, and `p` agrees with the committed
+proof for `i` (`Agree`); a padding position can only be "proved" for the padding pre-image. -/
+theorem validate_sound (H : Bytes → Bytes) (hH : ∀ x, (H x).length = 32) (post : Bool)
+    (leaves : List Bytes) (hn : 2 ≤ leaves.length) (h32 : leaves.length ≤ 2 ^ 32)
+    (root : HashRange) (sorted : List Bytes) (hroot : genRoot H post leaves = some (root, sorted))
+    (p : MerkleProof) (hw : WireOK p) (hlen : p.hashRanges.length = levels leaves.length)
+    (leaf : Bytes) (rep : Bool)
+    (hv : validate H post p root leaf (levels leaves.length) = some (true, rep)) :
+    Collision H ∨
+    ∃ i : Nat, i = pathIndex (levels leaves.length) p.index ∧ i < 2 ^ levels leaves.length ∧
+      (post = true → p.index = (i : Int)) ∧
+      (∀ hp hleaf, genProof H post leaves i = some (hp, hleaf) → leaf = hleaf ∧ Agree i p hp) ∧
+      (leaves.length ≤ i → leaf = Bytes.ofString (toString i)) := by
+  have hlen' : (entries H leaves).length = leaves.length := by simp [entries]
+  have := validate_sound_entries H post hH (entries H leaves) (by omega) (by omega)
+    (by
+      intro e he
+      simp only [entries, List.mem_map] at he
+      obtain ⟨l, _, rfl⟩ := he
+      rfl)
+    root sorted hroot p hw (by rw [hlen']; exact hlen) leaf rep (by rw [hlen']; exact hv)
+  rw [hlen'] at this
+  exact this
+
+/-- The hypotheses of `validate_sound` are met by a real acceptance (toy hash: 32-byte constant
+prefix; the generated proof of C29 is `WireOK`). -/
+example : WireOK ⟨3, [⟨List.replicate 32 1, 4, 9⟩], ⟨List.replicate 32 2, 9, 12⟩⟩ := by
+  refine ⟨?_, by decide, by decide, by decide, by decide⟩
+  intro s hs
+  simp at hs
+  subst hs
+  exact ⟨by decide, by decide, by decide⟩
+
+/-- **Changing the leaf.**  A proof accepted for `leaf` is also accepted for `leaf'` only if the two
+have the same hash: they are equal, or a collision. -/
+theorem leaf_mutation_rejected (H : Bytes → Bytes) (post : Bool) (p : MerkleProof) (root : HashRange)
+    (leaf leaf' : Bytes) (n : Nat) (r r' : Bool)
+    (h : validate H post p root leaf n = some (true, r))
+    (h' : validate H post p root leaf' n = some (true, r')) : leaf' = leaf ∨ Collision H := by
+  obtain ⟨_, h1, _⟩ := validateH_accept H post p root (H leaf) n r h
+  obtain ⟨_, h2, _⟩ := validateH_accept H post p root (H leaf') n r' h'
+  by_cases he : leaf' = leaf
+  · exact Or.inl he
+  · exact Or.inr ⟨leaf', leaf, he, by rw [← h1, ← h2]⟩
+
+/-- **Changing the root.**  A proof accepted against `root` is rejected against every other root
+(hash, lower or upper bound changed) — no collision alternative needed. -/
+theorem root_mutation_rejected (H : Bytes → Bytes) (post : Bool) (p : MerkleProof) (root root' : HashRange)
+    (leaf : Bytes) (n : Nat) (r : Bool) (h : validate H post p root leaf n = some (true, r))
+    (hne : root' ≠ root) : ∃ r', validate H post p root' leaf n = some (false, r') := by
+  obtain ⟨_, h1, h2, fin, hc⟩ := validateH_accept H post p root (H leaf) n r h
+  unfold validate validateH
+  by_cases h0 : root'.lower ≠ 0
+  · exact ⟨false, by simp [h0]⟩
+  · have c2 : ¬ (p.target.hash ≠ H leaf) := by simp [h1]
+    have c3 : ¬ (p.target.upper ≠ sumFromHash p.target.hash) := by simp [← h2]
+    simp only [h0, c2, c3, if_false, hc, hne]
+    exact ⟨true, rfl⟩
+
+/-- **Changing the target or a sibling (same index).**  Let `(hp, hleaf)` be the committed proof of
+position `j`.  If `(p', leaf')` with the same index is accepted, then — unless a collision is
+exhibited — `leaf' = hleaf` and `p' = hp`, with one exception: `j` odd and *both*
+`p'.target.lower` and the first sibling's upper bound differ from the committed values (being
+equal to each other).  Hence no single-field change of a committed proof is accepted. -/
+theorem mutation_fails_or_collides (H : Bytes → Bytes) (hH : ∀ x, (H x).length = 32) (post : Bool)
+    (leaves : List Bytes) (hn : 2 ≤ leaves.length) (h32 : leaves.length ≤ 2 ^ 32)
+    (root : HashRange) (sorted : List Bytes) (hroot : genRoot H post leaves = some (root, sorted))
+    (j : Nat) (hj : j < leaves.length) (hp : MerkleProof) (hleaf : Bytes)
+    (hgen : genProof H post leaves j = some (hp, hleaf))
+    (p' : MerkleProof) (hw : WireOK p') (hlen : p'.hashRanges.length = levels leaves.length)
+    (hidx : p'.index = (j : Int)) (leaf' : Bytes) (rep : Bool)
+    (hv : validate H post p' root leaf' (levels leaves.length) = some (true, rep)) :
+    Collision H ∨ (leaf' = hleaf ∧
+      (p' = hp ∨ (j % 2 = 1 ∧ p'.target.lower ≠ hp.target.lower ∧
+        ∃ s0 h0 rest, p'.hashRanges = s0 :: rest ∧ hp.hashRanges = h0 :: rest ∧
+          s0.upper ≠ h0.upper ∧ s0.upper = p'.target.lower))) := by
+  rcases validate_sound H hH post leaves hn h32 root sorted hroot p' hw hlen leaf' rep hv with hc | hs
+  · exact Or.inl hc
+  obtain ⟨i, hi, _, _, hag, _⟩ := hs
+  have hjl : j < 2 ^ levels leaves.length := Nat.lt_of_lt_of_le hj (le_two_pow_levels _)
+  have hij : i = j := by rw [hi, hidx]; exact pathIndex_natCast _ _ hjl
+  subst hij
+  obtain ⟨hl, hagree⟩ := hag hp hleaf hgen
+  refine Or.inr ⟨hl, ?_⟩
+  obtain ⟨a1, a2, aev, aod⟩ := hagree
+  -- the committed proof carries index j
+  have hpidx : hp.index = (i : Int) := by
+    simp only [genProof, genProofE] at hgen
+    split at hgen
+    · simp at hgen
+    · split at hgen
+      · simp only [Option.some.injEq, Prod.mk.injEq] at hgen
+        rw [← hgen.1]
+      · simp at hgen
+  have hixeq : p'.index = hp.index := by rw [hidx, hpidx]
+  rcases Nat.mod_two_eq_zero_or_one i with hpar | hpar
+  · obtain ⟨e1, e2⟩ := aev hpar
+    exact Or.inl (MerkleProof.ext' _ _ hixeq e2 e1)
+  · obtain ⟨s0, rest, h0, e1, e2, e3, e4, e5, e6⟩ := aod hpar
+    by_cases hm : p'.target.lower = hp.target.lower
+    · left
+      have hs0 : s0 = h0 := HashRange.ext' _ _ e3 e4 (by rw [e5, hm, e6])
+      have ht : p'.target = hp.target := HashRange.ext' _ _ a1 hm a2
+      exact MerkleProof.ext' _ _ hixeq (by rw [e1, e2, hs0]) ht
+    · right
+      refine ⟨hpar, hm, s0, h0, rest, e1, e2, ?_, e5⟩
+      rw [e5, e6]; exact hm
+
+/-- **Changing the index (after the upgrade).**  With no relay committed twice, one leaf cannot be
+accepted under two different committed positions: a collision is exhibited or the indices agree.
+(`ValidateProof` only admits `TargetIndex` in `[0, n)`.) -/
+theorem index_binding (H : Bytes → Bytes) (hH : ∀ x, (H x).length = 32)
+    (leaves : List Bytes) (hn : 2 ≤ leaves.length) (h32 : leaves.length ≤ 2 ^ 32) (hnd : leaves.Nodup)
+    (root : HashRange) (sorted : List Bytes) (hroot : genRoot H true leaves = some (root, sorted))
+    (p1 p2 : MerkleProof) (hw1 : WireOK p1) (hw2 : WireOK p2)
+    (hl1 : p1.hashRanges.length = levels leaves.length) (hl2 : p2.hashRanges.length = levels leaves.length)
+    (hi1 : p1.index < leaves.length) (hi2 : p2.index < leaves.length)
+    (leaf : Bytes) (r1 r2 : Bool)
+    (hv1 : validate H true p1 root leaf (levels leaves.length) = some (true, r1))
+    (hv2 : validate H true p2 root leaf (levels leaves.length) = some (true, r2)) :
+    Collision H ∨ p1.index = p2.index := by
+  rcases validate_sound H hH true leaves hn h32 root sorted hroot p1 hw1 hl1 leaf r1 hv1 with hc | hs1
+  · exact Or.inl hc
+  rcases validate_sound H hH true leaves hn h32 root sorted hroot p2 hw2 hl2 leaf r2 hv2 with hc | hs2
+  · exact Or.inl hc
+  obtain ⟨i1, _, _, hx1, hag1, _⟩ := hs1
+  obtain ⟨i2, _, _, hx2, hag2, _⟩ := hs2
+  have e1 := hx1 rfl
+  have e2 := hx2 rfl
+  have hlen' : (entries H leaves).length = leaves.length := by simp [entries]
+  have hlt1 : i1 < (entries H leaves).length := by rw [hlen']; omega
+  have hlt2 : i2 < (entries H leaves).length := by rw [hlen']; omega
+  obtain ⟨hp1, en1, hg1, hs1, _⟩ := genProofE_some H true (entries H leaves) (by omega) (by omega) i1 hlt1
+  obtain ⟨hp2, en2, hg2, hs2, _⟩ := genProofE_some H true (entries H leaves) (by omega) (by omega) i2 hlt2
+  have hle1 := (hag1 hp1 en1.leaf hg1).1
+  have hle2 := (hag2 hp2 en2.leaf hg2).1
+  -- the sorted leaves have no duplicates
+  have hperm := List.mergeSort_perm (entries H leaves) Entry.le
+  have hndl : ((entries H leaves).map (·.leaf)).Nodup := by
+    have : (entries H leaves).map (·.leaf) = leaves := by
+      simp [entries, List.map_map, Function.comp_def]
+    rw [this]; exact hnd
+  have hnds : (((entries H leaves).mergeSort Entry.le).map (·.leaf)).Nodup :=
+    ((hperm.map (·.leaf)).nodup_iff).mpr hndl
+  have hm1 : (((entries H leaves).mergeSort Entry.le).map (·.leaf))[i1]? = some leaf := by
+    rw [List.getElem?_map, hs1, hle1]; rfl
+  have hm2 : (((entries H leaves).mergeSort Entry.le).map (·.leaf))[i2]? = some leaf := by
+    rw [List.getElem?_map, hs2, hle2]; rfl
+  have hieq : i1 = i2 := nodup_getElem?_inj _ i1 i2 leaf hnds hm1 hm2
+  right
+  rw [e1, e2, hieq]
+
+/-- **Before the upgrade the index is bound only through its parity bits**: `Validate` gives the
+same verdict for any two indices that make the loop walk the same position. -/
+theorem pre_index_only_bits (H : Bytes → Bytes) (p : MerkleProof) (x : Int) (root : HashRange)
+    (leaf : Bytes) (n : Nat) (h : pathIndex n x = pathIndex n p.index) :
+    validate H false { p with index := x } root leaf n = validate H false p root leaf n :=
+  validateH_noIdx H false p x root (H leaf) n (climb_pre_index H n x p.index p.target p.hashRanges h)
+
+/-- In particular `i` and `i + m·2^levels` are indistinguishable before the upgrade (the keeper's
+comparison of `TargetIndex` with the required index is what rules the alias out). -/
+theorem pre_index_aliasing (H : Bytes → Bytes) (p : MerkleProof) (i m : Nat) (root : HashRange)
+    (leaf : Bytes) (n : Nat) (hp : p.index = (i : Int)) :
+    validate H false { p with index := ((i + m * 2 ^ n : Nat) : Int) } root leaf n =
+      validate H false p root leaf n :=
+  pre_index_only_bits H p _ root leaf n (by rw [hp]; exact pathIndex_alias n i m)
+
+example : pathIndex 3 (5 + 8 * 7 : Int) = 5 ∧ pathIndex 3 (-3 : Int) = 0 := by decide
+
+/-- **Empty ranges are replays.**  Any range the loop visits with `lower ≥ upper` — the target at
+the level reached, or the sibling stored for that level — ends verification with
+`(false, replay = true)`. -/
 theorem zero_width_rejected_as_replay (H : Bytes → Bytes) (post : Bool) (n : Nat) (idx : Int)
     (t : HashRange) (sibs : List HashRange)
     (h : t.upper ≤ t.lower ∨ (∃ s rest, sibs = s :: rest ∧ s.upper ≤ s.lower)) :
@@ -20,5 +206,91 @@ theorem zero_width_rejected_as_replay (H : Bytes → Bytes) (post : Bool) (n : N
   · exact climb_target_invalid H post n idx t sibs (by simpa using ht)
 
 example : climb id true 3 5 ⟨[1], 7, 7⟩ [⟨[2], 1, 7⟩] = .fail true := by decide
+
+/-- The same at any depth: if `l` iterations pass and the range reached then (or its sibling) is
+empty, `Validate` returns `(false, true)` whatever follows. -/
+theorem zero_width_at_any_level (H : Bytes → Bytes) (post : Bool) (p : MerkleProof) (root : HashRange)
+    (leaf : Bytes) (l m : Nat) (t' : HashRange) (idx' : Int)
+    (h0 : root.lower = 0) (h1 : p.target.hash = H leaf) (h2 : p.target.upper = sumFromHash p.target.hash)
+    (hreach : climb H post l p.index p.target p.hashRanges = .top t' idx')
+    (hz : t'.upper ≤ t'.lower ∨ (∃ s rest, p.hashRanges.drop l = s :: rest ∧ s.upper ≤ s.lower)) :
+    validate H post p root leaf (l + (m + 1)) = some (false, true) := by
+  unfold validate validateH
+  have c1 : ¬ (root.lower ≠ 0) := by simp [h0]
+  have c2 : ¬ (p.target.hash ≠ H leaf) := by simp [h1]
+  have c3 : ¬ (p.target.upper ≠ sumFromHash p.target.hash) := by simp [← h2]
+  simp only [c1, c2, c3, if_false]
+  rw [climb_split H post l (m + 1), hreach]
+  simp only
+  rw [zero_width_rejected_as_replay H post m idx' t' _ hz]
+
+/-- **Duplicates make an empty range, and it is flagged.**  If a relay is committed twice (more
+generally: two leaves with the same sum), some committed position carries an empty range; the
+proof generated for it is rejected with `replay = true`, and so is the proof for its sibling. -/
+theorem duplicates_make_zero_width (H : Bytes → Bytes) (post : Bool) (leaves : List Bytes)
+    (hn : 2 ≤ leaves.length) (h32 : leaves.length ≤ 2 ^ 32) (hdup : ¬ leaves.Nodup) :
+    ∃ j root sorted, j + 1 < leaves.length ∧ genRoot H post leaves = some (root, sorted) ∧
+      (∃ p leaf, genProof H post leaves (j + 1) = some (p, leaf) ∧ p.target.upper ≤ p.target.lower ∧
+        validate H post p root leaf (levels leaves.length) = some (false, true)) ∧
+      (sibIndex (j + 1) < leaves.length →
+        ∃ p leaf, genProof H post leaves (sibIndex (j + 1)) = some (p, leaf) ∧
+          validate H post p root leaf (levels leaves.length) = some (false, true)) := by
+  have hlen' : (entries H leaves).length = leaves.length := by simp [entries]
+  have hsum : (entries H leaves).map Entry.sum = leaves.map (fun l => sumFromHash (H l)) := by
+    simp [entries, Entry.sum, List.map_map, Function.comp_def]
+  have hd : ¬ ((entries H leaves).map Entry.sum).Nodup := by
+    rw [hsum]
+    intro h
+    exact hdup (nodup_of_map _ _ h)
+  have := duplicate_sum_flagged H post (entries H leaves) (by omega) (by omega)
+    (by
+      intro e he
+      simp only [entries, List.mem_map] at he
+      obtain ⟨l, _, rfl⟩ := he
+      rfl) hd
+  rw [hlen'] at this
+  exact this
+
+example : ¬ ([[1], [2], [1], [3], [4]] : List Bytes).Nodup := by decide
+
+/-- **Known finding (counterexample to "any changed sibling hash is rejected").**  When the target
+is a left child at some level, the sibling's hash may be replaced by itself followed by the bytes
+that the fixed-size buffer would hold after it, followed by arbitrary bytes: the verdict does not
+change, so a committed proof stays accepted with a different sibling hash. -/
+theorem sibling_hash_extension_accepted (H : Bytes → Bytes) (post : Bool) (p : MerkleProof)
+    (s : HashRange) (rest : List HashRange) (junk : Bytes) (root : HashRange) (leaf : Bytes) (n : Nat)
+    (hp : p.hashRanges = s :: rest) (ht : p.target.hash.length = 32) (hs : s.hash.length = 32)
+    (heven : goOdd p.index = false) :
+    validate H post
+      { p with hashRanges :=
+          { s with hash := s.hash ++ (tailBytes post p.target.lower s.upper (u64 p.index) (u64 (p.index + 1)) ++ junk) }
+            :: rest } root leaf (n + 1) = validate H post p root leaf (n + 1) := by
+  unfold validate validateH
+  simp only [hp]
+  rw [climb_sibling_hash_extension H post n p.index p.target s rest junk ht hs heven]
+
+/-- The extended hash really is a different proof. -/
+example (s : HashRange) (junk : Bytes) (post : Bool) (a b c d : Nat) :
+    s.hash ++ (tailBytes post a b c d ++ junk) ≠ s.hash := by
+  intro h
+  have := congrArg List.length h
+  simp [tailBytes_length] at this
+  cases post <;> simp at this
+
+/-- **Known finding (counterexample to "any changed sibling range is rejected").**  For an odd
+index the boundary between the left sibling leaf and the target can be moved, in both fields
+together, to any `m` strictly between the sibling's lower and the target's upper bound: the
+verdict does not change. -/
+theorem odd_leaf_midpoint_accepted (H : Bytes → Bytes) (post : Bool) (p : MerkleProof)
+    (s : HashRange) (rest : List HashRange) (m : Nat) (root : HashRange) (leaf : Bytes) (n : Nat)
+    (hp : p.hashRanges = s :: rest) (hodd : goOdd p.index = true) (hadj : p.target.lower = s.upper)
+    (hs : s.lower < s.upper) (ht : p.target.lower < p.target.upper)
+    (hm1 : s.lower < m) (hm2 : m < p.target.upper) :
+    validate H post
+      { p with target := { p.target with lower := m }, hashRanges := { s with upper := m } :: rest }
+      root leaf (n + 1) = validate H post p root leaf (n + 1) := by
+  unfold validate validateH
+  simp only [hp]
+  rw [climb_midpoint_shift H post n p.index p.target s rest m hodd hadj hs ht hm1 hm2]
 
 end C30
